@@ -167,8 +167,7 @@ V('A1_slice_shares_when_whole', ['C04'], 'bits.py', "        bs = self.__class__
   "        bs = self.__class__()\n        bs._bitstore = self._bitstore if (start, end) == (0, len(self)) else self._bitstore.getslice(start, end)\n        return bs", ['A1'])
 V('A1_and_same_object_shares', ['C04', 'C16'], 'bits.py', "        if bs is self:\n            return self.__copy__()\n        bs = Bits._create_from_bitstype(bs)\n        s = object.__new__(self.__class__)\n        s._bitstore = self._bitstore & bs._bitstore",
   "        if bs is self:\n            s = object.__new__(self.__class__)\n            s._bitstore = self._bitstore\n            return s\n        bs = Bits._create_from_bitstype(bs)\n        s = object.__new__(self.__class__)\n        s._bitstore = self._bitstore & bs._bitstore", ['A1'])
-V('POSW_and_self_resets_pos', ['C06', 'C16'], 'bits.py', "        if bs is self:\n            return self.__copy__()\n        bs = Bits._create_from_bitstype(bs)\n        s = object.__new__(self.__class__)\n        s._bitstore = self._bitstore & bs._bitstore",
-  "        if bs is self:\n            return self.copy()\n        bs = Bits._create_from_bitstype(bs)\n        s = object.__new__(self.__class__)\n        s._bitstore = self._bitstore & bs._bitstore", ['POSW'])
+# (POSW_and_self_resets_pos - `return self.copy()` in Bits.__and__ - was retired: since ConstBitStream.copy() returns a new stream it is no fault)
 V('A8_store_copy_returns_self', ['C04', 'C16'], 'bitstore.py', "        \"\"\"Always creates a copy, even if instance is immutable.\"\"\"\n        return BitStore(self._bitarray)",
   "        \"\"\"Always creates a copy, even if instance is immutable.\"\"\"\n        return self", ['A8'])
 V('A8_copy_ignores_flag', ['C04'], 'bitstore.py', "        return self if self.immutable else self._copy()", "        return self", ['A8'])
@@ -738,3 +737,29 @@ S('PKG_S_rename_all_locals', ALL + ['C05'], '*', pkg_fn=_pkg_transform('locals')
 # ---- A11 for ConstBitStream
 V('A11_constbitstream_copy_returns_self', ['C06', 'C04', 'C01'], 'bitstream.py', "        # The data can be shared as it's immutable, but the bit position can't be.\n        return self.__copy__()",
   "        return self", ['A11'])
+
+
+# ---- SELFOP / SIB / SGN0 / IDEM / G5 (absolute helper) / D5 (native shift)
+def _drop_self_decoupling(which):
+    def fn(src):
+        a = "        if bs is self:\n            bs = self._copy()\n        if pos is None:\n            pos = self._pos\n"
+        if src.count(a) != 2:
+            return None
+        i = src.index(a) if which == 0 else src.index(a, src.index(a) + 1)
+        return src[:i] + "        if pos is None:\n            pos = self._pos\n" + src[i + len(a):]
+    return fn
+
+
+V('SELFOP_overwrite_reads_operand_after_write', ['C06', 'C03', 'C20'], 'bitstream.py', fn=_drop_self_decoupling(0), expect=['SELFOP'])
+V('SELFOP_insert_reads_operand_after_write', ['C06', 'C03', 'C20'], 'bitstream.py', fn=_drop_self_decoupling(1), expect=['SELFOP'])
+V('SIB_bitarray_replace_drops_count_zero', ['C03', 'C07'], 'bitarray_.py', "        if count == 0:\n            return 0\n", "", ['SIB'])
+V('SGN0_float_zero_shortcut', ['C02', 'C18', 'C11'], 'bitstore_helpers.py', "    fmt = {16: '>e', 32: '>f', 64: '>d'}[length] if big_endian else {16: '<e', 32: '<f', 64: '<d'}[length]\n",
+  "    fmt = {16: '>e', 32: '>f', 64: '>d'}[length] if big_endian else {16: '<e', 32: '<f', 64: '<d'}[length]\n    if f == 0.0:\n        return BitStore.frombytes(bytes(length // 8))\n", ['SGN0'])
+S('SGN0_float_zero_shortcut_with_sign', ['C02', 'C18', 'C11'], 'bitstore_helpers.py', "    fmt = {16: '>e', 32: '>f', 64: '>d'}[length] if big_endian else {16: '<e', 32: '<f', 64: '<d'}[length]\n",
+  "    fmt = {16: '>e', 32: '>f', 64: '>d'}[length] if big_endian else {16: '<e', 32: '<f', 64: '<d'}[length]\n    if f == 0.0 and math.copysign(1.0, f) > 0:\n        return BitStore.frombytes(bytes(length // 8))\n")
+V('IDEM_ixor_self_shortcut', ['C16', 'C03'], 'bitarray_.py', "        bs = self._create_from_bitstype(bs)\n        self._bitstore ^= bs._bitstore\n        return self",
+  "        if bs is self:\n            return self\n        bs = self._create_from_bitstype(bs)\n        self._bitstore ^= bs._bitstore\n        return self", ['IDEM'])
+S('IDEM_ior_self_shortcut', ['C16', 'C03'], 'bitarray_.py', "        bs = self._create_from_bitstype(bs)\n        self._bitstore |= bs._bitstore\n        return self",
+  "        if bs is self:\n            return self\n        bs = self._create_from_bitstype(bs)\n        self._bitstore |= bs._bitstore\n        return self")
+V('G5_insert_append_fast_path', ['C12', 'C03'], 'bitstream.py', "        self._insert(bs, pos)\n        self._pos = pos + len(bs)",
+  "        if pos == len(self):\n            self._addright(bs)\n        else:\n            self._insert(bs, pos)\n        self._pos = pos + len(bs)", ['G5'])
